@@ -139,10 +139,10 @@ def case_term(r):
     return "(mkPgCase %s\n  %s\n  %s\n  %s)" % (r["baseline_g"], r["actions_g"], r["after_g"], impl)
 
 
-SHARD_HEAD = "From VV.PG Require Import Known CorrGen Hyp.\n"
+SHARD_HEAD = "From VV.PG Require Import Known CorrGen Hyp Pending.\n"
 SHARD_TAIL = ("Eval vm_compute in report_from shard_base cases.\n"
               "Eval vm_compute in ksql_mismatches shard_base cases.\n"
-              "Eval vm_compute in (hyp_stats cases ++ sim_stats cases).\n")
+              "Eval vm_compute in (hyp_stats cases ++ sim_stats cases ++ plan_stats cases).\n")
 
 
 def write_shards(d, rows, per):
@@ -356,9 +356,24 @@ def c03_check(tier, seed):
             chk.known_finding(k["id"], k["what"])
         else:
             chk.notes.append("NOTE stale known finding %s: its witness no longer fails" % k["id"])
-    hyp = res.get("hyp", {})
+    hyp = dict(res.get("hyp", {}))
+    # plans under the hypotheses of the plan-level theorems: before = Sim_plan (every step under a per-step lemma on the
+    # planner's schema), after = Sim_plan_pending (pending-set invariant) or Sim_plan
+    plans = {"plans": hyp.pop("plans", 0),
+             "before_under_Sim_plan": hyp.pop("plans_under_Sim_plan", 0),
+             "under_Sim_plan_pending": hyp.pop("plans_under_Sim_plan_pending", 0),
+             "after_under_Sim_plan_or_Sim_plan_pending": hyp.pop("plans_under_either", 0),
+             "plans_the_oracle_accepts": hyp.pop("plans_with_oracle_ok", 0),
+             "under_a_theorem_but_oracle_fails": hyp.pop("plans_under_either_with_oracle_failure", 0)}
     chk.cov["theorem_coverage"] = {"oracle_failures": len(failing), "classified_known": dict(covered), "unexplained": len(unexplained),
-                                   "steps_under_sim_theorem_hypotheses": hyp}
+                                   "steps_under_sim_theorem_hypotheses": hyp,
+                                   "plans_under_plan_level_theorem": plans}
+    if plans["under_a_theorem_but_oracle_fails"]:
+        # a plan under the decidable hypothesis of a proved plan-level theorem on which the oracle (the implementation's own
+        # statements on the same catalog model) fails contradicts the theorem unless model and implementation disagree
+        rp = vflib.write_replay(prop, "theorem-vs-oracle", {"tier": tier, "seed": seed, "count": plans["under_a_theorem_but_oracle_fails"],
+                                                            "what": "plan_ok holds (Sim_plan / Sim_plan_pending apply) but the oracle does not end in OOk"})
+        chk.violation(rp)
     for i in unexplained[:6]:
         r, f = rows[i], failing[str(i)]
         rp = vflib.write_replay(prop, "oracle", {"tier": tier, "seed": seed, "input": input_of(r),
